@@ -6,6 +6,8 @@ import (
 	"context"
 	"fmt"
 	"io"
+	"os"
+	"path/filepath"
 	"testing"
 
 	"github.com/containerd/nri/pkg/api"
@@ -25,7 +27,7 @@ var mtdConfigs = map[string]string{
 func mtdContainers() map[string]*api.Container {
 	return map[string]*api.Container{
 		"no-linux": {Id: "c", Name: "c0"},
-		"full":     {Id: "c", Name: "c0", Linux: &api.LinuxContainer{CgroupsPath: "/kubepods/pod/c", Resources: &api.LinuxResources{Memory: &api.LinuxMemory{Limit: api.Int64(1 << 30)}}}},
+		"full":     {Id: "ctr0id", Name: "c0", Linux: &api.LinuxContainer{CgroupsPath: "/kubepods/pod/c", Resources: &api.LinuxResources{Memory: &api.LinuxMemory{Limit: api.Int64(1 << 30)}}}},
 	}
 }
 
@@ -55,52 +57,71 @@ func TestVerifC14(t *testing.T) {
 		w.Replayer = nil
 	}
 	opt.runDir = t.TempDir()
+	// environments: no cgroup directory for the container (StartContainer is refused early); cgroup directory present but no
+	// memtierd binary in PATH (the launch itself is refused); cgroup directory present and a memtierd that starts and lingers
+	cgroups := t.TempDir()
+	os.MkdirAll(filepath.Join(cgroups, "kubepods", "pod", "ctr0id"), 0o755)
+	emptyBin, fakeBin := t.TempDir(), t.TempDir()
+	os.WriteFile(filepath.Join(fakeBin, "memtierd"), []byte("#!/bin/sh\nexec /bin/sleep 3\n"), 0o755)
+	envs := []struct{ name, cgroups, path string }{{"no-cgroup", "", emptyBin}, {"no-binary", cgroups, emptyBin}, {"launches", cgroups, fakeBin}}
+	oldPath := os.Getenv("PATH")
+	defer os.Setenv("PATH", oldPath)
 	outcomes := map[string]bool{}
 	for cfgName, cfg := range mtdConfigs {
 		for ctrName := range mtdContainers() {
 			for annName, ann := range mtdAnnotations() {
-				for _, seq := range []string{"create", "create,start,stop", "start", "stop", "stop,start,create"} {
-					label := fmt.Sprintf("memtierd cfg=%s ctr=%s ann=%s seq=%s", cfgName, ctrName, annName, seq)
-					if replay != "" && replay != label {
-						continue
-					}
-					p := &plugin{ctrMemtierdEnv: map[string]*memtierdEnv{}}
-					pod := &api.PodSandbox{Id: "p", Name: "pod", Namespace: "ns", Annotations: ann}
-					var err error
-					pan, msg, where := mc.Guard(func() {
-						p.Configure(ctx, cfg, "runtime", "v1")
-						for _, h := range splitComma(seq) {
-							switch h {
-							case "create":
-								_, _, err = p.CreateContainer(ctx, pod, mtdContainers()[ctrName])
-							case "start":
-								err = p.StartContainer(ctx, pod, mtdContainers()[ctrName])
-							case "stop":
-								_, err = p.StopContainer(ctx, pod, mtdContainers()[ctrName])
+				for _, seq := range []string{"create", "create,start,stop", "start", "stop", "stop,start,create", "start,stop,start,stop", "create,start,start,stop,stop"} {
+					for _, env := range envs {
+						label := fmt.Sprintf("memtierd cfg=%s ctr=%s ann=%s seq=%s env=%s", cfgName, ctrName, annName, seq, env.name)
+						if replay != "" && replay != label {
+							continue
+						}
+						os.Setenv("PATH", env.path)
+						p := &plugin{ctrMemtierdEnv: map[string]*memtierdEnv{}, cgroupsDir: env.cgroups}
+						pod := &api.PodSandbox{Id: "p", Name: "pod", Namespace: "ns", Annotations: ann}
+						var err error
+						pan, msg, where := mc.Guard(func() {
+							p.Configure(ctx, cfg, "runtime", "v1")
+							for _, h := range splitComma(seq) {
+								switch h {
+								case "create":
+									_, _, err = p.CreateContainer(ctx, pod, mtdContainers()[ctrName])
+								case "start":
+									err = p.StartContainer(ctx, pod, mtdContainers()[ctrName])
+								case "stop":
+									_, err = p.StopContainer(ctx, pod, mtdContainers()[ctrName])
+								}
+							}
+						})
+						w.Res.Evaluations++
+						w.Res.Nontrivial++
+						outcomes[fmt.Sprint(pan, err == nil)] = true
+						if pan {
+							w.Report(mc.Violation{Property: "C14", Oracle: "panic", Signature: "panic@" + where + ":memtierd", Scenario: "memtierd", Trace: []string{label}, Detail: msg})
+							continue
+						}
+						pan, msg, where = mc.Guard(func() {
+							p.Configure(ctx, mtdConfigs["classes"], "runtime", "v1")
+							_, _, err = p.CreateContainer(ctx, &api.PodSandbox{Id: "p2", Name: "pod2", Namespace: "ns", Annotations: mtdAnnotations()["class-known"]}, mtdContainers()["full"])
+						})
+						if pan || err != nil {
+							w.Report(mc.Violation{Property: "C14", Oracle: "probe-fails", Signature: "probe-fails:memtierd", Scenario: "memtierd", Trace: []string{label},
+								Detail: fmt.Sprintf("after %s a valid request fails: panic=%v (%s %s) err=%v", label, pan, msg, where, err)})
+						}
+						// leave no helper process behind
+						for _, me := range p.ctrMemtierdEnv {
+							if me != nil && me.cmd != nil && me.cmd.Process != nil {
+								me.cmd.Process.Kill()
+								me.cmd.Wait()
 							}
 						}
-					})
-					w.Res.Evaluations++
-					w.Res.Nontrivial++
-					outcomes[fmt.Sprint(pan, err == nil)] = true
-					if pan {
-						w.Report(mc.Violation{Property: "C14", Oracle: "panic", Signature: "panic@" + where + ":memtierd", Scenario: "memtierd", Trace: []string{label}, Detail: msg})
-						continue
-					}
-					pan, msg, where = mc.Guard(func() {
-						p.Configure(ctx, mtdConfigs["classes"], "runtime", "v1")
-						_, _, err = p.CreateContainer(ctx, &api.PodSandbox{Id: "p2", Name: "pod2", Namespace: "ns", Annotations: mtdAnnotations()["class-known"]}, mtdContainers()["full"])
-					})
-					if pan || err != nil {
-						w.Report(mc.Violation{Property: "C14", Oracle: "probe-fails", Signature: "probe-fails:memtierd", Scenario: "memtierd", Trace: []string{label},
-							Detail: fmt.Sprintf("after %s a valid request fails: panic=%v (%s %s) err=%v", label, pan, msg, where, err)})
 					}
 				}
 			}
 		}
 	}
 	w.Res.Outcomes = int64(len(outcomes))
-	w.Sample("memtierd cfg=memtierd ctr=no-linux ann=class-tracked seq=create,start,stop")
+	w.Sample("memtierd cfg=memtierd ctr=full ann=class-tracked seq=create,start,stop env=no-binary")
 }
 
 func splitComma(s string) []string {
